@@ -24,6 +24,7 @@ def main():
     ap.add_argument("--also", default=""); ap.add_argument("--tier", default="quick"); ap.add_argument("--seeds", default="1")
     ap.add_argument("--module", default=".")
     ap.add_argument("--keep", action="store_true", help="store patch, demo, README and meta.json under /verif/seeded/<ID>/")
+    ap.add_argument("--keep-as", default="", help="directory name under /verif/seeded/ (default: the id)")
     a = ap.parse_args()
     wt = tempfile.mkdtemp(prefix=f"sc-{a.id}-", dir="/tmp")
     os.rmdir(wt)
@@ -76,7 +77,7 @@ def main():
                 os.remove(os.path.join("/verif/.build", f))
     print(json.dumps(out, indent=1))
     if a.keep:
-        dst = os.path.join("/verif/seeded", a.id)
+        dst = os.path.join("/verif/seeded", a.keep_as or a.id)
         os.makedirs(dst, exist_ok=True)
         shutil.copy(a.patch, os.path.join(dst, "patch.diff"))
         if a.demo_file:
